@@ -207,7 +207,7 @@ class Canon:
         if isinstance(node, ast.Subscript):
             return "%s[%s]" % (self.text(node.value), self.index_text(node.slice))
         if isinstance(node, ast.Call):
-            f = fname(node) or self.text(node.func)
+            f = (fname(node) if dotted(node.func) else None) or self.text(node.func)
             f = self.rename.get(f, f)
             if isinstance(node.func, ast.Name) and node.func.id in self.rename:
                 f = self.rename[node.func.id]
@@ -218,7 +218,7 @@ class Canon:
         if isinstance(node, ast.Constant):
             return repr(node.value)
         if isinstance(node, ast.Tuple):
-            return "(" + ", ".join(self.ptext(e) for e in node.elts) + ")"
+            return "(" + ", ".join(self.ptext(e) for e in node.elts) + ("," if len(node.elts) == 1 else "") + ")"
         if isinstance(node, ast.Starred):
             return "*" + self.ptext(node.value)
         if isinstance(node, (ast.BinOp, ast.UnaryOp)):
